@@ -394,3 +394,28 @@ Proof.
   - intros L1 L2. apply B2; lia.
   - exact B3.
 Qed.
+
+(* ------------------------------------------------------------------ a command touches only the keys it names *)
+(* The model keeps one value per key and has no sharing between keys by construction; stated
+   explicitly (value -- hence type -- and deadline of every key the command does not name), so
+   that the tie's comparison of the whole keyspace after every step is pinned to it: an
+   implementation in which two keys share storage cannot agree with the model. *)
+Theorem command_touches_only_named_keys d now nowms args hint r d' :
+  db_wf d -> c01_command args = true -> exec d now nowms args hint = (r, d') ->
+  forall k, ~ In k (keys_named args) ->
+    (forall v t, view d now k = Some (v, t) ->
+       view d' now k = Some (v, t) /\
+       (exists c, lower c = B "type" /\ fst (exec d' now nowms [c; k] hint) = RSimple (ref_type_name v))) /\
+    (view d now k = None -> view d' now k = None).
+Proof.
+  intros W HC H k Hk.
+  pose proof (commands_frame _ _ _ _ _ _ _ _ W HC H Hk) as Fr.
+  split.
+  - intros v t E. split; [rewrite Fr; exact E|].
+    exists (B "type"). split; [reflexivity|].
+    assert (W' : db_wf d') by (eapply exec_wf; eauto).
+    pose proof (surjective_pairing (exec d' now nowms [B "type"; k] hint)) as E2.
+    destruct (type_any_value d' now nowms (B "type") k hint _ _ W' eq_refl E2) as (R & _).
+    etransitivity; [exact R|]. rewrite Fr, E. reflexivity.
+  - intros E. rewrite Fr. exact E.
+Qed.
